@@ -114,7 +114,7 @@ def gen_set(rng, label=None, backup=None, docgen_opts=None):
     """One yaml-set scenario; ``label`` None means a successful edit."""
     opts = dict(sets=rng.random() < 0.15, anchors=rng.random() < 0.6,
                 nonascii=rng.random() < 0.2, max_nodes=rng.choice([4, 8, 16]),
-                multiline=rng.random() < 0.1)
+                multiline=rng.random() < 0.1, special=rng.random() < 0.1)
     opts.update(docgen_opts or {})
     gen = gd.DocGen(rng, **opts)
     doc = gen.document()
